@@ -13,8 +13,11 @@ def run(tier, seed):
     res.add(run_functions(TS.FUNCTIONS + [f for f in PC.CORE_FUNCTIONS if f not in ("CLexer._init_state", "CLexer.input")], "C06/smt", tier))
     try:
         import contracts.lexer as LX
-        res.add(run_functions(LX.C06_FUNCTIONS, "C06/smt", tier))
+        from props import lexreplay
+        res.add(lexreplay.attach(run_functions(LX.C06_FUNCTIONS, "C06/smt", tier)))
     except ImportError:
         res.assumptions.append("lexer contracts (progress, error rules always advance) not built")
+    from props import tables
+    res.add(tables.error_channel_obligations("C06"))
     res.assumptions.append("RecursionError on inputs nested deeper than the interpreter's recursion limit is tolerated by the property")
     return res
